@@ -26,7 +26,7 @@ def Pos.Sane (p : Pos) : Prop := tickOk p.lower = true ∧ tickOk p.upper = true
 def sqAmt (sqrt : Nat) (p : Pos) : Rat × Rat :=
   closePosition NumCtx.exact sqrt p.lower p.upper p.liq.toNat Gen.sqWethDecimals Gen.sqOsqthDecimals
 
-theorem amount0Gen_exact (sa sb : Nat) (l : Int) (hl : 0 ≤ l) (dec : Bool) (d : Nat) :
+theorem c01v_amount0Gen_exact (sa sb : Nat) (l : Int) (hl : 0 ≤ l) (dec : Bool) (d : Nat) :
     amount0Gen NumCtx.exact sa sb l dec d = getAmount0 NumCtx.exact sa sb l.toNat d := by
   unfold amount0Gen getAmount0
   have hc : ((l.toNat : Nat) : Rat) = (l : Rat) := by
@@ -34,7 +34,7 @@ theorem amount0Gen_exact (sa sb : Nat) (l : Int) (hl : 0 ≤ l) (dec : Bool) (d 
     exact_mod_cast congrArg (fun z : Int => (z : Rat)) this
   cases dec <;> simp only [NumCtx.exact_mul, NumCtx.exact_div, q96R, Bool.false_eq_true, if_false, if_true] <;> push_cast <;> rw [hc]
 
-theorem amount1Gen_exact (sa sb : Nat) (l : Int) (hl : 0 ≤ l) (dec : Bool) (d : Nat) :
+theorem c01v_amount1Gen_exact (sa sb : Nat) (l : Int) (hl : 0 ≤ l) (dec : Bool) (d : Nat) :
     amount1Gen NumCtx.exact sa sb l dec d = getAmount1 NumCtx.exact sa sb l.toNat d := by
   unfold amount1Gen getAmount1
   have hc : ((l.toNat : Nat) : Rat) = (l : Rat) := by
@@ -43,7 +43,7 @@ theorem amount1Gen_exact (sa sb : Nat) (l : Int) (hl : 0 ≤ l) (dec : Bool) (d 
   cases dec <;> simp only [NumCtx.exact_mul, NumCtx.exact_div, q96R, Bool.false_eq_true, if_false, if_true] <;> push_cast <;> rw [hc]
 
 /-- the kernel's `get_token_amounts` is `closePosition` on sane positions -/
-theorem tokenAmountsStd_exact (pool : Pool) (sqrt : Nat) (p : Pos) (hp : p.Sane) :
+theorem c01v_tokenAmountsStd_exact (pool : Pool) (sqrt : Nat) (p : Pos) (hp : p.Sane) :
     tokenAmountsStd NumCtx.exact pool sqrt p.lower p.upper p.liq p.liqDec =
       .ok (closePosition NumCtx.exact sqrt p.lower p.upper p.liq.toNat pool.d0 pool.d1) := by
   obtain ⟨h1, h2, h3⟩ := hp
@@ -57,9 +57,9 @@ theorem tokenAmountsStd_exact (pool : Pool) (sqrt : Nat) (p : Pos) (hp : p.Sane)
     generalize sortPair (sqrtAt p.lower) (sqrtAt p.upper) = ab
     obtain ⟨a, b⟩ := ab
     simp only []
-    split_ifs <;> simp only [amount0Gen_exact _ _ _ h3, amount1Gen_exact _ _ _ h3]
+    split_ifs <;> simp only [c01v_amount0Gen_exact _ _ _ h3, c01v_amount1Gen_exact _ _ _ h3]
 
-theorem priceToSqrt_long (e : Squeeth.Env) (hpos : 0 < e.uniPrice) :
+theorem c01v_priceToSqrt_long (e : Squeeth.Env) (hpos : 0 < e.uniPrice) :
     priceToSqrtStd NumCtx.exact (Squeeth.longPool e) e.uniPrice = .ok (Squeeth.uniSqrtP NumCtx.exact e.uniPrice) := by
   unfold priceToSqrtStd Squeeth.uniSqrtP
   have hne : (e.uniPrice == 0) = false := by
@@ -103,10 +103,10 @@ theorem C01_uni_balance_is_squeeth_pool_value (sq : Rat → Rat) (e : Squeeth.En
     ∃ b, getMarketBalance (Kern.std NumCtx.exact sq) (Squeeth.longPool e) u = .ok b ∧
       b.netValue = Squeeth.uniNetValue NumCtx.exact e s ∧ b.positionCount = Squeeth.uniCount s := by
   have hsqrt : (Kern.std NumCtx.exact sq).priceToSqrt (Squeeth.longPool e) row.price = .ok (Squeeth.uniSqrtP NumCtx.exact e.uniPrice) := by
-    rw [hprice]; exact priceToSqrt_long e hpos
+    rw [hprice]; exact c01v_priceToSqrt_long e hpos
   obtain ⟨b, hb, hnv, _, _, _, _, hcnt⟩ := C01_uni_balance_eq_spec (Kern.std NumCtx.exact sq) rfl (Squeeth.longPool e) u row
     (Squeeth.uniSqrtP NumCtx.exact e.uniPrice) (sqAmt (Squeeth.uniSqrtP NumCtx.exact e.uniPrice)) hrow hsqrt
-    (fun p hp _ => tokenAmountsStd_exact (Squeeth.longPool e) _ p (hsane p hp))
+    (fun p hp _ => c01v_tokenAmountsStd_exact (Squeeth.longPool e) _ p (hsane p hp))
   refine ⟨b, hb, ?_, ?_⟩
   · rw [hnv, hprice, sumOver_eq_sumIf, C01_squeeth_pool_value_is_sum_over_free, hs]
   · rw [hcnt]
